@@ -190,7 +190,7 @@ def perturb(draw, base, nmoves):
 
 
 SHAPES = ["complete", "incomplete", "sparse_block", "near_unanimous", "identical", "near_unanimous_incomplete",
-          "cyclic", "cyclic_incomplete", "block_cyclic", "cyclic_ties", "mixture"]
+          "cyclic", "cyclic_incomplete", "block_cyclic", "cyclic_ties", "mixture", "floaters", "camps"]
 BASE_SHAPES = SHAPES[:9]
 
 
@@ -269,6 +269,61 @@ def datasets(draw, max_n=7, max_m=5, min_n=1, shapes=None, kinds=None, allow_emp
             pu = sorted({e for r in part["rankings"] for b in r for e in b}, key=lambda v: (str(type(v)), v))
             ren = {e: names[i % n] for i, e in enumerate(pu)}
             rankings.extend([[[ren[e] for e in b] for b in r] for r in part["rankings"]])
+    elif shape == "camps":
+        # two or three 'camps': a base ranking and variants of it (an element jumps far away, a tie is made or broken),
+        # each repeated the same number of times or so. Pairwise costs are then often exactly EQUAL (before == after,
+        # before == tied): the regime in which strict / non-strict comparisons of costs decide partitions, placements
+        # and pruning rules
+        base = draw(weak_order_of(names))
+        camps = [base]
+        for _ in range(draw(st.sampled_from([1, 1, 2]))):
+            v = [list(b) for b in camps[draw(st.integers(0, len(camps) - 1))]]
+            for _ in range(draw(st.sampled_from([1, 1, 2]))):
+                op = draw(st.integers(0, 2))
+                if op == 0 and len(v) >= 2:          # long jump of one element
+                    i = draw(st.integers(0, len(v) - 1))
+                    e = v[i].pop(draw(st.integers(0, len(v[i]) - 1)))
+                    v = [b for b in v if b]
+                    j = draw(st.integers(0, len(v)))
+                    if draw(st.booleans()) and j < len(v):
+                        v[j].append(e)
+                    else:
+                        v.insert(j, [e])
+                else:
+                    v = draw(perturb(v, 1))
+            camps.append(v)
+        reps = draw(st.sampled_from([1, 2, 2, 3]))
+        for c in camps:
+            k = reps if draw(st.integers(0, 3)) else draw(st.sampled_from([1, 2, 3]))
+            for _ in range(k):
+                rankings.append([list(b) for b in c])
+        if draw(st.integers(0, 2)) == 0:
+            drop = draw(st.lists(st.integers(0, 4), min_size=n, max_size=n))
+            i = draw(st.integers(0, len(rankings) - 1))
+            gone = {e for e, q in zip(names, drop) if q == 0}
+            rankings[i] = [b2 for b2 in ([e for e in b if e not in gone] for b in rankings[i]) if b2]
+    elif shape == "floaters":
+        # a structured core (some base shape over the first names) plus one or two 'floating' elements that are only
+        # co-ranked with a few elements of the core, inside a cycle with them: incomparable with most of the core, yet
+        # in a component with part of it - partitions must merge across apparently robust frontiers
+        nf = 1 if n < 5 else draw(st.sampled_from([1, 2]))
+        core, floats = names[:max(1, n - nf)], names[max(1, n - nf):]
+        part = draw(datasets(max_n=len(core), max_m=max(2, max_m - 2), min_n=len(core),
+                             shapes=[draw(st.sampled_from(["near_unanimous", "block_cyclic", "cyclic", "identical",
+                                                           "complete"]))],
+                             kinds=(kind,), allow_empty_rankings=False, allow_duplicates=False))
+        pu = sorted({e for r in part["rankings"] for b in r for e in b}, key=lambda v: (str(type(v)), v))
+        ren = {e: core[i % len(core)] for i, e in enumerate(pu)}
+        rankings.extend([[[ren[e] for e in b] for b in r] for r in part["rankings"]])
+        for f in floats:
+            mates = list(draw(st.permutations(core)))[:draw(st.sampled_from([1, 2, 2, 3]))]
+            grp = mates + [f]
+            step = 1
+            for k in range(draw(st.sampled_from([1, 2, 3, 3]))):
+                sh = (k * step) % len(grp)
+                r = [[e] for e in grp[sh:] + grp[:sh]]
+                r = draw(perturb(r, draw(st.sampled_from([0, 0, 1]))))
+                rankings.append(r)
     elif shape == "block_cyclic":
         # 2-3 blocks in a common order; inside a block every ranking uses a rotation (cycle); a ranking may skip whole
         # blocks: several components, some of them hard, and rankings that miss a whole component
@@ -296,8 +351,12 @@ def datasets(draw, max_n=7, max_m=5, min_n=1, shapes=None, kinds=None, allow_emp
         base = list(draw(st.permutations(names)))
         m = max(m, 3)
         step = draw(st.sampled_from([1, 1, 2]))
+        # either every ranking is rotated one step further, or most rankings agree and some are rotated by one of two
+        # fixed shifts (an element or two jump from one end to the other: split majorities on those pairs only)
+        few = draw(st.booleans())
+        shifts = [0, draw(st.integers(1, max(1, n - 1))), draw(st.integers(1, max(1, n - 1)))]
         for k in range(m):
-            sh = (k * step) % n
+            sh = (shifts[draw(st.sampled_from([0, 0, 1, 1, 2]))] if few else (k * step)) % n
             rot = base[sh:] + base[:sh]
             r = [[e] for e in rot]
             r = draw(perturb(r, draw(st.sampled_from([0, 0, 1, 2]))))
